@@ -5,6 +5,7 @@ import (
 	"encoding/json"
 	"errors"
 	"fmt"
+	"math"
 	"net/http"
 	urllib "net/url"
 	"strconv"
@@ -224,7 +225,9 @@ func (s *Standalone) applyLoginRateLimit(w http.ResponseWriter, r *http.Request,
 
 	attempts += 1
 	c = cookie.Make(cookie.LoginCount, strconv.Itoa(attempts), opts)
-	c.MaxAge = int(window.Seconds())
+	// Max-Age has whole-second resolution: round up, so that a sub-second window does not yield
+	// Max-Age=0 (a cookie that never lapses) and the counter is never forgotten before the window has passed
+	c.MaxAge = int(math.Ceil(window.Seconds()))
 	cookie.Set(w, c)
 	span.SetAttributes(attribute.Int("login.attempts", attempts))
 	return nil
